@@ -157,6 +157,21 @@ def ed_witness_cases():
                                 case.update(kind='ftab', api=what + '.filter_tables', filt=what, sc=0)
                             case['_witness'] = ['ED', L, q, tau, pad, side]
                             cases.append(case)
+    # long strings of unequal length: one character doubled (an insertion next to an identical character) at the
+    # start, in the middle and at the end - common prefix and common suffix overlap, the distance is exactly 1
+    for L in (12, 13, 14, 16):
+        x = letters[:L]
+        for p_ in (0, L // 2, L - 1):
+            y = x[:p_ + 1] + x[p_] + x[p_ + 1:]
+            for op, tau in (('<=', 1), ('=', 1), ('<', 1), ('<', 2)):
+                for side in ('L', 'R'):
+                    case = {'tok': {'kind': 'qg', 'q': 2, 'pad': 1, 'rs': 0}, 'meas': 'EDIT_DISTANCE',
+                            't': [tau, 1], 'ae': 1, 'am': 0, 'lout': None, 'rout': None, 'n_jobs': 1, 'op': op,
+                            'L': {'cols': ['id', 's'], 'rows': [[1, x if side == 'L' else y]], 'index': None, 'strcols': ['s']},
+                            'R': {'cols': ['id', 's'], 'rows': [[11, y if side == 'L' else x]], 'index': None, 'strcols': ['s']},
+                            'kind': 'join', 'api': 'edit_distance_join', 'filt': 'NONE', 'sc': 1}
+                    case['_witness'] = ['ED-doubled', L, p_, op, tau, side]
+                    cases.append(case)
     return cases
 
 
